@@ -744,6 +744,18 @@ fn test_times(case: &TimesCase, st: &mut Stats, counting: bool) -> CaseResult {
         let a = abuild(&case.cfg, &prepop, None).await?;
         let sp = at(&s.root, path).map_err(|e| e.to_string())?;
         let ap = aat(&a.root, path).map_err(|e| e.to_string())?;
+        // a missing entry of an existing directory: both worlds must classify alike
+        {
+            let t = crate::exec::time_of(1_000_000_000, 0);
+            let (sm, am) = (at(&s.root, "/d/missing").map_err(|e| e.to_string())?, aat(&a.root, "/d/missing").map_err(|e| e.to_string())?);
+            for is_mod in [true, false] {
+                let (rs, ra) = if is_mod { (sm.set_modification_time(t), am.set_modification_time(t).await) } else { (sm.set_access_time(t), am.set_access_time(t).await) };
+                let cls = |r: &vfs::VfsResult<()>| r.as_ref().err().map(|e| crate::exec::classify(e.kind()));
+                if cls(&rs) != cls(&ra) {
+                    return Err(format!("set_{}_time on the missing entry '/d/missing': sync {:?} but async {:?}", if is_mod { "modification" } else { "access" }, rs.map_err(|e| e.to_string()), ra.map_err(|e| e.to_string())));
+                }
+            }
+        }
         let mut done: Vec<String> = vec![];
         let (mut mod_set, mut acc_set) = (false, false);
         for (is_mod, x, y) in &case.calls {
